@@ -10,11 +10,11 @@ except ImportError:      # replays run under the repository's interpreter, witho
     z3 = None
 
 from . import frontend
-from .api import Ty, Contract
+from .api import Ty, Contract, Dependent
 from .interp import Interp, PyRaise, Closure, BoundMethod
 from .loops import _call_pred, _param_names
 from .path import PathState, PathAbort, RetryPath, Unsupported
-from .values import SBool, SInt, Sym, SOpt, SChoice, to_z3, wrap
+from .values import SBool, SInt, Sym, SOpt, SChoice, contains_sym, to_z3, wrap
 
 MAX_PATHS = 4000
 
@@ -62,7 +62,7 @@ def _clause_env(bound, ghosts, extra):
 def apply_contract(interp, c, func, args, kwargs):
     """Modular call: assert the precondition, havoc, assume the postcondition."""
     st = interp.st
-    st.used_contracts.add(c.qname)
+    st.used_contracts.add(getattr(c, 'key', c.qname))
     if c.returns is None and c.yields is None:
         from .api import _returns_a_value
         if c.returns_value is None:
@@ -104,9 +104,55 @@ def apply_contract(interp, c, func, args, kwargs):
     old = None
     if c.old is not None:
         old = _call_pred(interp, c.old, env)
-        env = dict(env, old=old)
+        env = dict(env, old=old)      # `when` conditions of exceptional outcomes may mention the pre-state
     if c.event is not None:
         st.emit(c.event, dict(bound))
+    # deterministic `when` conditions of exceptional outcomes are predicates of the PRE-state: evaluated before
+    # the frame is havoced (the callee may change the fields they read)
+    when_pre = {}
+    for exc_cls_, spec_ in c.raises.items():
+        if spec_.get('when') is not None:
+            when_pre[exc_cls_] = interp.truth(_call_pred(interp, spec_['when'], env))
+    # frame: ghost state the callee may change (entries 'ghost:<key>' of `modifies`) is havoced;
+    # what is known about it afterwards is what the (exceptional) postconditions say
+    short = c.qname.rpartition(':')[2]
+    for key, ty in (c.modifies.items() if isinstance(c.modifies, dict) else ()):
+        if isinstance(ty, Dependent):
+            v = ty.make_for_call(interp, '%s@%s' % (key, short), env)
+        else:
+            v = ty.make(interp, '%s@%s' % (key, short)) if isinstance(ty, Ty) else ty
+        if key.startswith('ghost:'):
+            st.ghost[key[6:]] = v
+        else:
+            # object field reachable from a parameter: 'self._x', 'self._a._b' (private names written mangled)
+            path = key.split('.')
+            if path[0] not in bound or len(path) < 2:
+                raise Unsupported('modifies entry %r of %s: unknown base' % (key, c.qname))
+            obj = bound[path[0]]
+            for a in path[1:-1]:
+                obj = interp.getattr(obj, a)
+            if isinstance(obj, (SOpt, SChoice)):
+                obj = interp.resolve(obj)
+            interp.setattr(obj, path[-1], v)
+
+    if c.modifies and not isinstance(c.modifies, dict):
+        _havoc_modified(interp, c, bound)
+
+    def raise_(exc_cls, spec):
+        exc = _make_exc(interp, exc_cls, spec, env)
+        ens = spec.get('ensures')
+        if ens is not None and 'trace' not in _param_names(ens):
+            # exceptional postcondition: assumed of the exception the callee raises
+            env_x = _clause_env(bound, ghosts, {'exc': exc, 'old': old, 'trace': st.trace, 'ghost': st.ghost})
+            try:
+                st.assume(interp.truth(_call_pred(interp, ens, env_x)))
+            except PyRaise as e:
+                raise Unsupported('exceptional postcondition of %s raised %r when assumed at a call site'
+                                  % (c.qname, e.exc))
+        if c.event is not None:
+            st.emit(c.event + ':raised', dict(bound), exc)
+        raise PyRaise(exc)
+
     # exceptional outcomes
     outcomes = ['return']
     for exc_cls, spec in c.raises.items():
@@ -118,77 +164,105 @@ def apply_contract(interp, c, func, args, kwargs):
         for exc_cls, spec in c.raises.items():
             when = spec.get('when')
             if when is not None:
-                w = interp.truth(_call_pred(interp, when, env))
+                w = when_pre[exc_cls]
                 if interp.st.fork(w):
-                    exc = _make_exc(interp, exc_cls, spec, env)
-                    if c.modifies:
-                        _havoc_frame(interp, c, bound)     # it may have changed its frame before raising
-                    raise PyRaise(exc)
+                    raise_(exc_cls, spec)
         nondet = [o for o in outcomes[1:] if o[2].get('when') is None]
         if nondet:
             k = st.choose(1 + len(nondet))
             if k > 0:
                 _, exc_cls, spec = nondet[k - 1]
-                exc = _make_exc(interp, exc_cls, spec, env)
-                if c.modifies:
-                    _havoc_frame(interp, c, bound)
-                raise PyRaise(exc)
-    if c.modifies:
-        _havoc_frame(interp, c, bound)
-    result = c.returns.make(interp, 'ret.%s' % c.qname.rpartition(':')[2]) if isinstance(c.returns, Ty) else None
+                raise_(exc_cls, spec)
+    if isinstance(c.returns, Dependent):
+        result = c.returns.make_for_call(interp, 'ret.%s' % short, env)
+    else:
+        result = c.returns.make(interp, 'ret.%s' % short) if isinstance(c.returns, Ty) else None
     if c.yields is not None:
         # a generator used through its contract: all its items at once (its effects happen at the call)
         from .models import SIter
         ys = c.yields.make(interp, 'yielded.%s' % c.qname.rpartition(':')[2])
         ghosts = dict(ghosts, yielded=ys)
-        result = SIter(ys, 0)
+        result = SIter(ys, 0, eager=True)
     env2 = _clause_env(bound, ghosts, {'result': result, 'old': old, 'trace': st.trace, 'ghost': st.ghost})
     for name, clause in c.ensures.items():
         if isinstance(clause, tuple):
-            # (clause, 'effect'): executed for its effect on ghost state (e.g. appends to `trace` the events
-            #                     that happen inside the callee);
-            # (clause, 'internal'): proved of the body, says nothing to callers (e.g. about the callee's own trace)
-            if clause[1] == 'effect':
-                _call_pred(interp, clause[0], env2)
+            if clause[1] == 'check-only':   # proved of the function, not assumed at call sites
+                continue
+            # (clause, 'effect') : executed for its effect on ghost state
+            _call_pred(interp, clause[0], env2)
             continue
-        n_dec = len(st.decisions)
-        v = interp.truth(_call_pred(interp, clause, env2))
-        if v is False and not st.scopes and len(st.decisions) == n_dec and st.check() != z3.unsat:
-            # (a clause that is false after a case split made while evaluating it just prunes that case, e.g. an
-            # enum-valued result; a clause that is false without any case split contradicts the path)
-            # a clause that is plainly false on a feasible path: assuming it would silently drop the path
-            # (typically a clause about the callee's own `trace`: mark it (clause, 'internal'))
-            raise Unsupported('ensures[%s] of %s evaluates to False at a call site in %s: the contract cannot '
-                              'be used there (a clause about the callee\'s own trace must be marked internal)'
-                              % (name, c.qname, caller))
-        st.assume(v)
-        if os.environ.get('PYVC_TRACE_UNSAT') and st.check() == z3.unsat:
-            print('PYVC_TRACE_UNSAT: path condition unsatisfiable after assuming ensures[%s] of %s in %s'
-                  % (name, c.qname, caller), flush=True)
+        if 'trace' in _param_names(clause):
+            # describes the events *during* the call: says nothing about the caller's trace (check-only)
+            continue
+        try:
+            n_dec = len(st.decisions)
+            v = interp.truth(_call_pred(interp, clause, env2))
+            if v is False and not st.scopes and len(st.decisions) == n_dec:
+                raise Unsupported('postcondition %r of %s is constantly false for the havoced result at a call site '
+                                  '(identity with a fresh object? use a Dependent shape or a check-only clause)'
+                                  % (name, c.qname))
+            st.assume(v)
+        except PyRaise as e:
+            # an ill-defined clause must not look like an exception of the code under verification
+            raise Unsupported('postcondition %r of %s raised %r when assumed at a call site'
+                              % (name, c.qname, e.exc))
+    if c.event is not None:
+        st.emit(c.event + ':returned', dict(bound), result)
     return result
 
 
-def _resolve_path(interp, c, bound, path):
-    parts = path.split('.')
-    if parts[0] not in bound:
-        raise Unsupported('contract %s: modifies entry %r does not start with a parameter' % (c.qname, path))
-    obj = bound[parts[0]]
-    for a in parts[1:-1]:
+def _havoc_modified(interp, c, bound):
+    """Call site of a contract with `modifies`: the named mutable lists / iterators get arbitrary new contents
+    (in place: aliases see the same object); what is known afterwards is what `ensures` says."""
+    from .mlist import MList
+    from .models import SIter
+    st = interp.st
+    k = st.counters.get('call!modifies', 0)
+    st.counters['call!modifies'] = k + 1
+    tag = 'call%d' % k
+    for path in c.modifies:
+        parts = path.split('.')
+        if parts[0] not in bound:
+            raise Unsupported('modifies %r of %s: no such parameter' % (path, c.qname))
+        obj = bound[parts[0]]
+        owner = None
+        ty = c.params.get(parts[0])
+        for a in parts[1:]:
+            owner = obj
+            obj = interp.getattr(obj, a)
+            ty = getattr(ty, 'fields', {}).get(a)
         if isinstance(obj, (SOpt, SChoice)):
             obj = interp.resolve(obj)
-        obj = interp.getattr(obj, a)
-    if isinstance(obj, (SOpt, SChoice)):
-        obj = interp.resolve(obj)
-    return obj, parts[-1]
-
-
-def _havoc_frame(interp, c, bound):
-    """`modifies={'self._x': <shape>, 'self._io.pos': <shape>}`: the fields a function may change; at a call
-    site they get arbitrary new values of the given shape (then the postconditions are assumed)."""
-    for path, ty in c.modifies.items():
-        obj, attr = _resolve_path(interp, c, bound, path)
-        v = ty.make(interp, '%s@%s' % (path, c.qname.rpartition(':')[2])) if isinstance(ty, Ty) else ty
-        interp.setattr(obj, attr, v)
+        if type(obj) is list and owner is not None and not contains_sym(obj, 0) and hasattr(ty, 'shape'):
+            # a concrete list held in a field of an object (e.g. Partitioning([], [], [])): it becomes a symbolic
+            # mutable list in that field.  Sound only if the field is the single reference to the list object:
+            # checked (references: the field, the variable `obj`, the argument of getrefcount).
+            import sys
+            if sys.getrefcount(obj) > 3:
+                raise Unsupported('contract %s modifies %r: the concrete list in that field is referenced from '
+                                  'elsewhere too' % (c.qname, path))
+            from .mlist import from_concrete
+            m = from_concrete(interp, obj, path) if obj else MList(interp, st.fresh_name(path), ty.shape())
+            m.is_deque = getattr(ty, 'deque', False)
+            interp.setattr(owner, parts[-1], m)
+            obj = m
+        if isinstance(obj, MList):
+            obj.havoc(interp, tag)
+        elif isinstance(obj, SIter):
+            p0 = to_z3(obj.pos) if not isinstance(obj.pos, int) else z3.IntVal(obj.pos)
+            p1 = st.fresh_int('%s.pos@%s' % (obj.xs.uid, tag))
+            st.assume(z3.And(p1 >= p0, z3.Or(p1 <= obj.xs.length, p1 == p0)))
+            obj.pos = wrap(p1)
+        elif isinstance(obj, list):
+            raise Unsupported('contract %s modifies %r, but the caller passes a concrete list: declare the '
+                              'caller\'s local in its contract (locals=dict(name=MListOf(...)))' % (c.qname, path))
+        else:
+            # symbolic maps (and objects that hold them): the mutable state reachable from the named
+            # parameter / field is forgotten; the clauses relate it to `old`
+            from . import models
+            if not models.havoc_mutable(interp, obj, '%s.%s' % (tag, c.qname.rpartition(':')[2])):
+                raise Unsupported('modifies %r of %s: nothing to havoc (neither a symbolic mutable list, an '
+                                  'iterator nor a symbolic map)' % (path, c.qname))
 
 
 def _snapshot_fields(interp, args):
@@ -267,6 +341,11 @@ def _make_exc(interp, exc_cls, spec, env):
     mk = spec.get('make')
     if mk is not None:
         return _call_pred(interp, mk, env)
+    shape = spec.get('shape')       # Ty of the exception object as callers see it
+    if isinstance(shape, Dependent):
+        return shape.make_for_call(interp, 'exc.%s' % getattr(exc_cls, '__name__', 'exc'), env)
+    if isinstance(shape, Ty):
+        return shape.make(interp, 'exc.%s' % getattr(exc_cls, '__name__', 'exc'))
     if isinstance(exc_cls, Ty):
         return exc_cls.make(interp, 'exc')
     try:
@@ -295,7 +374,9 @@ class FunctionReport:
         self.unknown_feasibility = 0
         self.feasibility_queries = 0
         self.slow_queries = []
+        self.uncovered = []        # 'line N: <source>' of return/raise statements no feasible path reached
         self.deps_sha = None
+        self.dep_shas = {}         # qualified name -> sha256 of the source text (the function itself under '')
 
 
 def verify_function(reg, c, budget_paths=MAX_PATHS):
@@ -303,11 +384,21 @@ def verify_function(reg, c, budget_paths=MAX_PATHS):
     rep = FunctionReport(c.qname)
     t0 = time.time()
     func = c.func
+    reg.current_props = tuple(c.props)
+    mod = getattr(c, 'module', None)
+    scope = [getattr(mod, 'prop', None)] + sorted(getattr(mod, 'uses', ())) + list(c.props)
+    reg.current_scope = tuple(dict.fromkeys(x for x in scope if x))
     info = frontend.funcinfo_of(func)
     rep.source = '%s:%d' % (info.filename, info.node.lineno)
     rep.sha = info.source_sha
     worklist = [[]]
     seen = 0
+    import ast as _ast
+    from .loops import _walk_own
+    # exits of the function's own body (nested functions that are only defined, not called, do not count)
+    exits = {n.lineno for n in _walk_own(info.node) if isinstance(n, (_ast.Return, _ast.Raise))} \
+        if not isinstance(info.node, _ast.Lambda) else set()
+    covered = set()
     while worklist:
         prefix = worklist.pop()
         seen += 1
@@ -318,13 +409,20 @@ def verify_function(reg, c, budget_paths=MAX_PATHS):
         st = PathState(prefix, stats)
         interp = Interp(st, reg)
         interp.fn_name = c.qname
+        interp.cover_file = info.filename
         try:
             _run_path(interp, reg, c, func, rep)
             rep.paths += 1
+            covered |= st.reached
         except PathAbort:
             rep.aborted_paths += 1
         except RetryPath as r:
             worklist.append(r.prefix)
+            # alternatives discovered BEFORE the retry site are replayed from the prefix on the re-run,
+            # i.e. never re-discovered: keep them (those after the site will be found again)
+            for p in st.pending:
+                if len(p) < len(r.prefix):
+                    worklist.append(p)
             _cleanup(st)
             continue
         except Unsupported as u:
@@ -349,6 +447,20 @@ def verify_function(reg, c, budget_paths=MAX_PATHS):
         rep.unknown_feasibility += st.unknown_feasibility
         rep.feasibility_queries += stats.get('feasibility_queries', 0)
         rep.slow_queries.extend(stats.get('slow_queries', []))
+    if c.cover and not rep.unsupported and not rep.errors:
+        # reachability cover (DESIGN 2.4): every return / raise of the function must lie on a feasible
+        # path, otherwise assumptions (preconditions, assumed postconditions of callees) cut it off and
+        # the obligations on that exit were never generated
+        try:
+            lines = frontend.parse_file(info.filename)[0].splitlines()
+        except Exception:
+            lines = []
+        allowed = c.cover if isinstance(c.cover, (tuple, list)) else ()
+        for ln in sorted(exits - covered):
+            text = lines[ln - 1].strip() if 0 < ln <= len(lines) else ''
+            if any(a in text for a in allowed):
+                continue
+            rep.uncovered.append('line %d: %s' % (ln, text))
     rep.wall = time.time() - t0
     rep.deps_sha = _deps_sha(reg, c, rep)
     return rep
@@ -360,15 +472,23 @@ def _deps_sha(reg, c, rep):
     import hashlib
     import importlib
     parts = [rep.sha or '']
+    rep.dep_shas = {'': rep.sha or ''}
     for q in sorted(rep.inlined):
-        modname, _, path = q.partition(':')
-        try:
-            obj, _owner = frontend.resolve_qualified(q)
-            f = frontend.raw_function(obj)
-            parts.append(q + '=' + (frontend.funcinfo_of(f).source_sha or ''))
-        except Exception:
-            parts.append(q + '=?')
+        sha = source_sha_of(q)
+        rep.dep_shas[q] = sha
+        parts.append(q + '=' + sha)
     return hashlib.sha256('\n'.join(parts).encode()).hexdigest()
+
+
+def source_sha_of(q):
+    """sha256 of the current source text of the repository function with this qualified name ('?' if it
+    cannot be located any more)"""
+    try:
+        obj, _owner = frontend.resolve_qualified(q)
+        f = frontend.raw_function(obj)
+        return frontend.funcinfo_of(f).source_sha or ''
+    except Exception:
+        return '?'
 
 
 def _cleanup(st):
@@ -394,6 +514,11 @@ def _run_path(interp, reg, c, func, rep):
     st = interp.st
     args, ghosts = make_inputs(interp, c)
     reg.ghost_env = dict(ghosts)
+    # ghost (monitor) variables declared in `modifies`: the function starts in an arbitrary monitor state
+    from .api import Dependent as _Dependent
+    for key, ty in (c.modifies.items() if isinstance(c.modifies, dict) else ()):
+        if key.startswith('ghost:') and isinstance(ty, Ty) and not isinstance(ty, _Dependent):
+            st.ghost[key[6:]] = ty.make(interp, key)
     if c.setup is not None:
         extra = c.setup(interp, args, ghosts)
         if extra:
@@ -408,9 +533,28 @@ def _run_path(interp, reg, c, func, rep):
     old = None
     if c.old is not None:
         old = _call_pred(interp, c.old, env)
+        env = dict(env, old=old)      # `when` conditions of exceptional outcomes may mention the pre-state
         reg.ghost_env['old'] = old        # visible to loop invariants
         interp.root_values.append(old)
-        env = dict(env, old=old)          # `when` conditions of exceptional outcomes may refer to the pre-state
+    # `when` conditions of exceptional outcomes are predicates of the PRE-state: evaluated before the call
+    # (the function may mutate its arguments)
+    when_values = {}
+    for exc_cls, spec in c.raises.items():
+        if spec.get('when') is not None:
+            when_values[exc_cls] = interp.truth(_call_pred(interp, spec['when'], env))
+    # frame: symbolic maps reachable from parameters that the contract does not list in `modifies`
+    # must be unchanged on every outcome
+    from . import models as _models
+    frame_snap = []
+    mods = tuple(c.modifies or ())
+    for pname, pval in args.items():
+        if pname in mods:
+            continue
+        for path_, m_ in _models.reachable_smaps(pval):
+            full = (pname + path_).replace('?', '')
+            if any(full == m or full.startswith(m + '.') for m in mods):
+                continue
+            frame_snap.append((pname + path_, m_, m_.has, m_.val))
     # positional order of the real function
     code = func.__code__
     names = list(code.co_varnames[:code.co_argcount + code.co_kwonlyargcount])
@@ -426,8 +570,10 @@ def _run_path(interp, reg, c, func, rep):
     pos = [args[n] for n in names[:code.co_argcount]]
     kw = {n: args[n] for n in names[code.co_argcount:] if n in args}
     outcome = None
-    frame_before = _snapshot_fields(interp, args) if c.modifies is not None else None
+    frame_before = _snapshot_fields(interp, args) if isinstance(c.modifies, dict) else None
+    ghost0 = dict(st.ghost)
     info = frontend.funcinfo_of(func)
+    mlists_before = _mutable_lists_of(args)
     yseq = None
     if info.is_generator:
         from .gens import YSeq
@@ -447,18 +593,28 @@ def _run_path(interp, reg, c, func, rep):
     fname = c.qname
     if frame_before is not None:
         _check_frame(interp, c, args, frame_before, fname)
+    # frame: a symbolic mutable list reachable from the parameters that the function changed must be declared in
+    # `modifies` (call sites keep everything else they know about such a list)
+    mlists_after = _mutable_lists_of(args)
+    for path, (m, version) in mlists_before.items():
+        now = mlists_after.get(path)
+        if (now is None or now[0] is not m or now[1] != version) and path not in c.modifies:
+            st.oblige('%s : frame[%s is not modified]' % (fname, path), False, {'kind': 'frame'})
+    for (where, m_, has0, val0) in frame_snap:
+        same = True if (m_.has is has0 and m_.val is val0) else wrap(z3.And(m_.has == has0, m_.val == val0))
+        st.oblige('%s : frame[%s unchanged]' % (fname, where), same, {'kind': 'frame'})
     if outcome[0] == 'return':
         env2 = _clause_env(args, ghosts, {'result': outcome[1], 'old': old, 'trace': st.trace, 'ghost': st.ghost})
         # a declared deterministic `when` exception must have been raised
         for exc_cls, spec in c.raises.items():
             when = spec.get('when')
             if when is not None:
-                w = interp.truth(_call_pred(interp, when, env))
+                w = when_values[exc_cls]
                 st.oblige('%s : raises[%s] when-condition implies raise' % (fname, _exc_name(exc_cls)),
                           interp.not_(w), {'kind': 'exc-post'})
         for name, clause in c.ensures.items():
             if isinstance(clause, tuple):
-                if clause[1] != 'internal':
+                if clause[1] != 'check-only':
                     continue
                 clause = clause[0]
             _oblige_clause(interp, '%s : ensures[%s]' % (fname, name), clause, env2, {'kind': 'post'})
@@ -471,8 +627,8 @@ def _run_path(interp, reg, c, func, rep):
                 env2 = _clause_env(args, ghosts, {'exc': exc, 'old': old, 'trace': st.trace, 'ghost': st.ghost})
                 when = spec.get('when')
                 if when is not None:
-                    _oblige_clause(interp, '%s : raises[%s] only when' % (fname, _exc_name(exc_cls)),
-                                   when, env, {'kind': 'exc-post'})
+                    st.oblige('%s : raises[%s] only when' % (fname, _exc_name(exc_cls)), when_values[exc_cls],
+                              {'kind': 'exc-post'})
                 st.oblige('%s : raises[%s] is a declared outcome' % (fname, _exc_name(exc_cls)), True,
                           {'kind': 'exc-post'})
                 ens = spec.get('ensures')
@@ -493,6 +649,22 @@ def _run_path(interp, reg, c, func, rep):
                                                                      + list(allowed or ()))),
                           isinstance(exc, tuple(allowed)) if allowed else False,
                           {'kind': 'raises-only', 'exception': repr(exc)})
+    # frame of the ghost (monitor) state: variables not declared in `modifies` are unchanged
+    if isinstance(c.modifies, dict):
+        for key in sorted(k for k in set(ghost0) | set(st.ghost) if isinstance(k, str)):
+            if ('ghost:' + key) in c.modifies:
+                continue
+            if key.startswith('__'):
+                continue        # bookkeeping of the engine (string pieces, caches, character classes): not monitor state
+            v0, v1 = ghost0.get(key, _MISSING), st.ghost.get(key, _MISSING)
+            if v0 is v1:
+                continue
+            if isinstance(v0, (int, bool, str, SInt, SBool)) and isinstance(v1, (int, bool, str, SInt, SBool)) \
+                    or (hasattr(v0, 't') and hasattr(v1, 't')):
+                same = interp.eq(v0, v1)
+            else:
+                same = False
+            st.oblige('%s : frame[ghost %s unchanged]' % (fname, key), same, {'kind': 'frame'})
     # vacuity guard: the path must be satisfiable, otherwise its obligations say nothing
     if st.check() == z3.unsat:
         if os.environ.get('PYVC_TRACE_UNSAT'):
@@ -514,6 +686,32 @@ def _run_path(interp, reg, c, func, rep):
     if c.raises_only is not None and outcome[0] == 'return':
         st.oblige('%s : raises_only(%s)' % (fname, ', '.join(_exc_name(e) for e in list(c.raises) + list(c.may_raise)
                                                             + list(c.raises_only))), True, {'kind': 'raises-only'})
+
+
+_MISSING = object()
+
+
+def _mutable_lists_of(args):
+    """{access path: (MList, version)} of the symbolic mutable lists reachable from the arguments through the
+    fields of repository objects"""
+    from .mlist import MList
+    from .interp import _is_repo_class
+    out = {}
+
+    def walk(v, path, depth):
+        if isinstance(v, MList):
+            out[path] = (v, v.version)
+            return
+        if depth <= 0 or isinstance(v, (Sym, str, int, float, type(None), list, tuple, dict)):
+            return
+        d = getattr(v, '__dict__', None)
+        if isinstance(d, dict) and _is_repo_class(type(v)):
+            for k, x in d.items():
+                walk(x, '%s.%s' % (path, k), depth - 1)
+
+    for name, v in args.items():
+        walk(v, name, 3)
+    return out
 
 
 def _shape_of_ty(ty):
